@@ -226,8 +226,57 @@ impl Prop for C17 {
                 applied = names[..m2].to_vec();
                 set_state(&mut ws, m2);
                 let i = ch.range(m2, n - 1);
-                let which = ch.below(BROKEN_PATCHES.len() + 1);
-                if which == BROKEN_PATCHES.len() {
+                let which = ch.below(BROKEN_PATCHES.len() + 3);
+                if which > BROKEN_PATCHES.len() {
+                    // the real patch, cut off inside the body of its last hunk
+                    let mut done = false;
+                    for p in ws.spec.patches.iter_mut() {
+                        if p.0 == names[i] {
+                            let text = p.1 .0.clone();
+                            // start of the last hunk header line
+                            let mut last_hdr = None;
+                            let mut last_body_end = 0;
+                            let mut pos = 0;
+                            // lines still owed to the current hunk (old side, new side)
+                            let (mut oc, mut nc) = (0usize, 0usize);
+                            for l in crate::bytes::split_lines(&text) {
+                                if oc == 0 && nc == 0 && l.starts_with(b"@@ -") {
+                                    last_hdr = Some((pos, pos + l.len()));
+                                    let hs = String::from_utf8_lossy(&l).into_owned();
+                                    let mut it = hs.split(' ');
+                                    let cnt = |t: Option<&str>| -> usize { t.and_then(|t| t[1..].split(',').nth(1).map(|c| c.parse().unwrap_or(1))).unwrap_or(1) };
+                                    it.next();
+                                    oc = cnt(it.next());
+                                    nc = cnt(it.next());
+                                } else if (oc > 0 || nc > 0) && !l.starts_with(b"\\") {
+                                    match l.first() {
+                                        Some(b'-') => oc = oc.saturating_sub(1),
+                                        Some(b'+') => nc = nc.saturating_sub(1),
+                                        _ => {
+                                            oc = oc.saturating_sub(1);
+                                            nc = nc.saturating_sub(1);
+                                        }
+                                    }
+                                    last_body_end = pos + l.len();
+                                }
+                                pos += l.len();
+                            }
+                            if let Some((_, hdr_end)) = last_hdr {
+                                // the cut must leave the last body line incomplete (at least its newline missing)
+                                if last_body_end > hdr_end + 2 {
+                                    let cut = ch.range(hdr_end + 1, last_body_end - 1);
+                                    p.1 = B(text[..cut].to_vec());
+                                    done = true;
+                                }
+                            }
+                        }
+                    }
+                    let nfiles = ws.metas[i].ops.len();
+                    kind = if done { format!("patch-cut-inside-last-hunk{}@{}", if nfiles >= 2 { "-multifile" } else { "" }, i - m2) } else {
+                        ws.spec.patches.retain(|(nm, _)| nm != &names[i]);
+                        format!("patch-missing@{}", i - m2)
+                    };
+                } else if which == BROKEN_PATCHES.len() {
                     ws.spec.patches.retain(|(nm, _)| nm != &names[i]);
                     kind = format!("patch-missing@{}", i - m2);
                 } else {
